@@ -1,2 +1,104 @@
+"""C10 deep rules: each rewriter interpreted on operator skeletons over opaque leaves; result
+compared with the input by complete truth tables (Boolean leaves, bound Boolean variables) and with
+the advertised shape."""
+from ..common import get_repo, parallel_map, method_loc
+from .. import proc
+from ..proc import Shape, S, BOOL, INT
+
+PROCS = {
+    "nnf": ("pysmt.rewritings.NNFizer", "convert", proc.pred_nnf),
+    "aig": ("pysmt.rewritings.AIGer", "convert", proc.pred_aig),
+    "prenex": ("pysmt.rewritings.PrenexNormalizer", "normalize", proc.pred_prenex),
+    "shannon": ("pysmt.solvers.qelim.ShannonQuantifierEliminator", "eliminate_quantifiers", proc.pred_qf),
+    "selfsub": ("pysmt.solvers.qelim.SelfSubstitutionQuantifierEliminator", "eliminate_quantifiers", proc.pred_qf),
+}
+
+
+def _job(job):
+    name, shape = job
+    cls, meth, pred = PROCS[name]
+
+    def call(w, it, f):
+        wk = w.new_walker(cls, w.env)
+        return it.call(it.getattr(wk, meth), [f])
+    res = proc.run_proc(shape, call, shape_pred=pred)
+    return [(name, repr(shape), r.kind, str(r.detail), r.result) for r in res]
+
+
+def _partition_job(job):
+    fn, shape = job
+
+    def call(w, it, f):
+        g = it.module_global(w.repo.modules["pysmt.rewritings"], fn)
+        parts = list(it.iterate(it.call(g, [f])))
+        return parts
+
+    def post(w, f, parts, facts):
+        top = "AND" if fn == "conjunctive_partition" else "OR"
+        for x in parts:
+            if w.opname(x) == top:
+                return proc.ProcResult(shape, "shape", "%s yields the %s node %s" % (fn, top, proc.sc.node_str(w, x)))
+        whole = w.app("And" if top == "AND" else "Or", parts)
+        v = proc.sc.validate(w, f, whole, facts, repr(shape))
+        return proc.ProcResult(shape, v.kind, v.detail, proc.sc.node_str(w, whole))
+    res = proc.run_proc(shape, call, post=post)
+    return [(fn, repr(shape), r.kind, str(r.detail), r.result) for r in res]
+
+
 def run(ctx):
-    pass
+    repo = get_repo()
+    if not ctx.want("R2"):
+        return
+    rs = ctx.rule("R2", "rewriters: result equivalent to the input and of the advertised shape (per operator skeleton)")
+    jobs = []
+    bshapes = proc.boolean_shapes()
+    qshapes = proc.quantified_shapes()
+    for sh in bshapes:
+        jobs.append(("nnf", sh))
+        jobs.append(("aig", sh))
+    for sh in qshapes:
+        jobs += [("nnf", sh), ("aig", sh), ("prenex", sh), ("shannon", sh), ("selfsub", sh)]
+    for sh in bshapes[:40]:
+        jobs.append(("prenex", sh))
+    outs = parallel_map(_job, jobs)
+    pj = []
+    for sh in bshapes:
+        pj += [("conjunctive_partition", sh), ("disjunctive_partition", sh)]
+    a, b, c = S("a"), S("b"), S("c")
+    for t in [("And", a, ("And", b, c)), ("And", ("And", a, b), ("And", a, c)), ("Or", a, ("Or", b, ("Or", a, c))),
+              ("And", ("Or", a, b), ("And", c, ("Or", a, b))), ("Or", ("And", a, b), ("Or", c, ("And", a, b)))]:
+        pj += [("conjunctive_partition", Shape(t)), ("disjunctive_partition", Shape(t))]
+    outs += parallel_map(_partition_job, pj)
+    where = {"nnf": "pysmt.rewritings.NNFizer", "aig": "pysmt.rewritings.AIGer", "prenex": "pysmt.rewritings.PrenexNormalizer",
+             "shannon": PROCS["shannon"][0], "selfsub": PROCS["selfsub"][0],
+             "conjunctive_partition": "pysmt.rewritings", "disjunctive_partition": "pysmt.rewritings"}
+    counts = {}
+    for res in outs:
+        for name, shape, kind, detail, result in res:
+            counts[(name, kind)] = counts.get((name, kind), 0) + 1
+            key = "%s|%s" % (name, shape)
+            loc = "pysmt/rewritings.py" if name in ("nnf", "aig", "prenex", "conjunctive_partition", "disjunctive_partition") \
+                else "pysmt/solvers/qelim.py"
+            if kind == "valid":
+                rs.ok({"procedure": name, "shape": shape, "result": result, "checked": detail})
+            elif kind == "vacuous":
+                continue
+            elif kind == "invalid":
+                ctx.finding(rs, key + "|not-equivalent",
+                            "%s(%s) returns %s which is not equivalent: %s" % (name, shape, result, detail), loc)
+            elif kind == "shape":
+                ctx.finding(rs, key + "|shape", "%s(%s) returns %s: %s" % (name, shape, result, detail), loc)
+            elif kind == "sort":
+                ctx.finding(rs, key + "|sort", "%s(%s): %s" % (name, shape, detail), loc)
+            elif kind == "raises":
+                # a rewriter rejecting a formula of its input fragment
+                if name in ("shannon", "selfsub", "prenex", "nnf", "aig") and "NotImplementedError" not in detail:
+                    ctx.finding(rs, key + "|raises", "%s(%s) raises %s" % (name, shape, detail), loc)
+                else:
+                    rs.unrec("%s(%s) raises %s" % (name, shape, detail))
+            else:
+                rs.unrec("%s(%s): %s" % (name, shape, detail[:100]))
+    ctx.analysed["procedure_shape_outcomes"] = dict(("%s:%s" % k, v) for k, v in sorted(counts.items()))
+    rs.notes.append("equivalence decided by complete truth tables over the opaque Boolean leaves (theory atoms over "
+                    "Int symbols range over {-1,0,2}), bound Boolean variables enumerated")
+    ctx.floor(rs, 400)
